@@ -383,9 +383,10 @@ impl RuntimeData {
             debug_assert!(!matches!(obj.marker, GcMarker::Black));
             match &mut obj.body {
                 CaoLangObjectBody::Table(obj) => {
-                    for (key, value) in obj.iter() {
+                    // not through `iter`: that looks every key up, and a key whose content has
+                    // changed since it was stored is not found, although it is still there
+                    for value in obj.stored_values() {
                         unsafe {
-                            checked_enqueue_value!(key);
                             checked_enqueue_value!(value);
                         }
                     }
